@@ -84,7 +84,7 @@ ASSUMPTIONS = ["paths are syntactically absolute; two path strings with the same
                "a path and a proper extension of it are never both committed in one store (C11 rejects that within an evaluation)",
                "DBFS is exercised over the in-process fake of the dbutils file-system API (harness/fakedbutils.py)"]
 
-SEGS = ["a", "b", "ab", "a b", "é", "a.b", "c"]
+SEGS = ["a", "b", "ab", "a b", "é", "a.b", "c", "x.tmp", "a.1.x.tmp", "k.meta"]
 BAD = [".", ".."]
 KEYS = ["k%d" % i for i in range(6)]
 
